@@ -79,6 +79,40 @@ def thorough_extras(prop: str, mod, root: str, rep: Report) -> None:
             raise AnalysisError(f"regex model disagrees with the real engine on {dis} string(s): analyser broken")
         rep.extra["traces_validated_against_impl"] = n
         rep.extra["model_validation"] = f"ordered-thread simulation vs re on all strings up to length 5 over the extended atom alphabet of {len(impls)} shipped pattern(s): {n} strings, 0 disagreements"
+    # (d) verdict stability: the same check on behaviour-preserving AST rewrites of the *current* tree must give the same verdict
+    try:
+        sys.path.insert(0, os.path.join(VERIF, "selftest"))
+        import benign as _benign
+        base_rc = 1 if rep.findings() else 0
+        stab = {}
+        for variant in ("rename-locals", "flip-comparisons", "swap-if-arms"):
+            try:
+                tmpv = _benign.build(variant, os.path.join(root, "chartparse"))
+            except Exception as e:  # the current tree does not survive the rewrite (e.g. syntax the rewriter cannot print)
+                stab[variant] = f"not applicable: {type(e).__name__}"
+                continue
+            vfind = []
+            try:
+                rcv = subprocess.run([os.path.join(VERIF, "check"), prop, "--tier", "quick", "--root", tmpv, "--evidence-dir", os.path.join(tmpv, "ev")],
+                                     cwd=VERIF, capture_output=True, text=True).returncode
+                try:
+                    vfind = json.load(open(os.path.join(tmpv, "ev", f"{prop}.findings.json")))["findings"]
+                except Exception:
+                    vfind = []
+            finally:
+                shutil.rmtree(tmpv, ignore_errors=True)
+            stab[variant] = {0: "holds", 1: "violation", 2: "analysis-error"}.get(rcv, str(rcv))
+            if rcv == 1 and base_rc == 0:
+                # the variant is the same program: a premise violated there is violated here; the rewrite only exposed it
+                rv = rep.rule(f"rewrite.{variant}", f"premises re-evaluated on the behaviour-preserving rewrite '{variant}' of the current tree")
+                for fd in vfind:
+                    rv.inst(fd.get("construct", "?"))
+                    rv.fail(fd.get("construct", "?"), f"(visible after the rewrite '{variant}') " + fd.get("message", ""), file=fd.get("file", ""),
+                            line=fd.get("line", 0), stmt=fd.get("stmt", ""), witness=fd.get("witness"))
+                base_rc = 1
+        rep.extra["verdict_stability_under_rewrites"] = stab
+    except ImportError:
+        pass
     seeded = sorted(glob.glob(os.path.join(VERIF, "seeded", f"{prop}-*")))
     out = {}
     for d in seeded:
